@@ -864,69 +864,6 @@ fn check_history(d: &DocSpec, ops: &[Op], active: &[usize], walk_seed: u64) -> R
     }
 }
 
-/// Which preconditions of the known defect classes hold at the moment an operation of the (minimised) history is applied:
-///   1  scroll_area_up/down on a non-empty area narrower than the layer and ONE row high (the drained row is never re-inserted)
-///   2  scroll_area_up/down on a non-empty area narrower than the layer, two or more rows high
-///   4  resize_buffer / crop / crop_rect while the SAUCE record's size differs from the buffer size
-///   8  add_ansi_font onto a slot that holds a font
-///  16  set_ansi_font / set_sauce_font in FixedSize / Unlimited mode while the caret's slot does not hold the font of slot 0
-///  32  change_font_slot(from, to) with a font in `from`, from != to and a font in `to`
-fn facts(d: &DocSpec, ops: &[Op], idxs: &[usize]) -> i64 {
-    let mut st = build(d);
-    let mut f = 0i64;
-    for &i in idxs {
-        let op = &ops[i];
-        let a = |k: usize| -> i64 { op.a.get(k).copied().unwrap_or(0) };
-        match op.name.as_str() {
-            "scrup" | "scrdown" => {
-                if let Some(layer) = st.get_cur_layer() {
-                    let lr = layer.get_rectangle();
-                    let area = match st.get_selection() {
-                        Some(sel) => sel.as_rectangle().intersect(&lr),
-                        None => lr,
-                    };
-                    if !area.is_empty() && area.get_width() < layer.get_width() {
-                        f |= if area.get_height() == 1 { 1 } else { 2 };
-                    }
-                }
-            }
-            "resize" | "crop" | "croprect" => {
-                let b = st.get_buffer();
-                if let Some(s) = b.get_sauce() {
-                    if s.buffer_size != b.get_size() {
-                        f |= 4;
-                    }
-                }
-            }
-            "addfont" => {
-                if st.get_buffer().has_font(a(0).max(0) as usize) {
-                    f |= 8;
-                }
-            }
-            "setfont" | "saucefont" => {
-                let b = st.get_buffer();
-                if matches!(b.font_mode, FontMode::FixedSize | FontMode::Unlimited) {
-                    let h0 = b.get_font(0).map(font_hash);
-                    let hc = b.get_font(st.get_caret().get_font_page()).map(font_hash);
-                    if h0 != hc {
-                        f |= 16;
-                    }
-                }
-            }
-            "fontslot" => {
-                let (from, to) = (a(0).max(0) as usize, a(1).max(0) as usize);
-                let b = st.get_buffer();
-                if from != to && b.has_font(from) && b.has_font(to) {
-                    f |= 32;
-                }
-            }
-            _ => {}
-        }
-        let _ = apply_caught(&mut st, op);
-    }
-    f
-}
-
 fn same_class(a: &Failure, b: &Failure) -> bool {
     let cat = |f: &Failure| f.detail.first().copied().unwrap_or(0);
     a.code == b.code && (!(matches!(a.code, 3 | 6 | 9 | 10)) || cat(a) == cat(b))
@@ -965,9 +902,6 @@ fn hist(args: &[&str]) -> Obs {
             let mut v = vec![curf.code, curf.step, cur.len() as i64];
             v.extend(cur.iter().map(|x| *x as i64));
             v.extend(curf.detail.iter());
-            // the preconditions of the known defect classes, evaluated on the minimised history (see `facts`)
-            v.push(-777);
-            v.push(facts(&d, &ops, &cur));
             Ok(v)
         }
     }
